@@ -62,8 +62,12 @@ func c05Cases(cfg vlib.Cfg) []*c05Spec {
 			sp = c05SlotStarveCase(r)
 		case i%40 == 17:
 			sp = c05EarlyContextCase(r)
-		case i%40 == 37:
+		case i%40 == 37 && i < 240:
 			sp = c05SvcLoopCase(r)
+		case i%40 == 3 || i%40 == 23:
+			sp = c05ConcludeStormCase(r)
+		case i%40 == 13 || i%40 == 33:
+			sp = c05ParkedStopperCase(r, i/20)
 		case i%3 == 1:
 			sp = c05PairCase(r, i/3)
 		case i%30 == 11:
@@ -548,6 +552,56 @@ func c05SvcLoopCase(r *vlib.Rand) *c05Spec {
 		for mi := 0; mi < k; mi += 2 {
 			sp.Disable = append(sp.Disable, sp.Mods[mi].Name)
 		}
+	}
+	return sp
+}
+
+// c05ConcludeStormCase: many microtasks of one module conclude at the same instant, in
+// many rounds; microtasks are started at the instant at which others conclude and are
+// running at the stop (staggered lingers). A lost decrement keeps the counter above zero
+// (P3: the stop waits out the timeout), a lost increment hides running work (P2).
+func c05ConcludeStormCase(r *vlib.Rand) *c05Spec {
+	sp := &c05Spec{Class: "concludestorm", Limit: 64, StopTimeoutMs: c05StopTimeoutMs, StopVia: "shutdown"}
+	dep := &c05Mod{Name: "m0", StopDelayMs: 0}
+	dep.Items = append(dep.Items, &c05Item{ID: "m0-w", Kind: kWorker, Settled: true, Wait: "ctx", Cycle: 1})
+	ms := &c05Mod{Name: "ma", Deps: []string{"m0"}, StopDelayMs: vlib.Pick(r, 0, 1), StopNil: r.Chance(1, 4)}
+	n := r.Range(8, 14)
+	for j := 0; j < n; j++ {
+		ms.Items = append(ms.Items, &c05Item{ID: fmt.Sprintf("ma-s%d", j), Kind: "mt_sig_high", Settled: true, ByStorm: true, Wait: "ctx", LingerMs: 2 + 6*j, Cycle: 1, DoneCalls: 1})
+	}
+	sp.Mods = []*c05Mod{ms, dep}
+	sp.DoneStorm = &doneStorm{Mod: "ma", Mode: "conclude", N: vlib.Pick(r, 100, 150, 200), Callers: vlib.Pick(r, 4, 6, 8)}
+	if r.Chance(1, 3) {
+		sp.Mgmt, sp.StopVia, sp.Disable = true, "manage", []string{"ma"}
+	}
+	return sp
+}
+
+// c05ParkedStopperCase: all work of the stopping module finishes completely (blocking
+// variants: the call returned, so the decrement and the completion check are done) while
+// the stopper is parked right after it set the stop flag / cancelled the context and
+// before it starts the stop routine; the stop routine then takes 50-100 ms and the module
+// has a dependency whose stop must not begin before it returned.
+func c05ParkedStopperCase(r *vlib.Rand, idx int) *c05Spec {
+	sp := &c05Spec{Limit: 64, StopTimeoutMs: c05StopTimeoutMs, StopVia: "shutdown"}
+	point := "modules.stop.cancelled"
+	if idx%2 == 1 {
+		point = "modules.stop.flagged"
+	}
+	sp.Class = "pair:all-work-ends-while-stopper-parked-at-" + point[len("modules.stop."):] + ":blocking"
+	dep := &c05Mod{Name: "m0", StopDelayMs: 0}
+	dep.Items = append(dep.Items, &c05Item{ID: "m0-w", Kind: kWorker, Settled: true, Wait: "ctx", Cycle: 1})
+	ms := &c05Mod{Name: "ma", Deps: []string{"m0"}, StopDelayMs: vlib.Pick(r, 50, 70, 100)}
+	n := r.Range(1, 3)
+	for j := 0; j < n; j++ {
+		it := &c05Item{ID: fmt.Sprintf("k%d", j), Kind: vlib.Pick(r, kWorkerRun, kWorkerRun, "mt_run_med", "mt_run_high", "mt_run_low"), Settled: true, Wait: "latch", Latch: point + "|ma", Cycle: 1}
+		ms.Items = append(ms.Items, it)
+		sp.Hooks = append(sp.Hooks, &hookRule{Point: point, Subject: "ma", Mode: "until", Until: "item.ret|" + it.ID, MaxMs: 4000})
+	}
+	sp.Hooks[len(sp.Hooks)-1].AfterUs = vlib.Pick(r, 0, 200, 1000)
+	sp.Mods = []*c05Mod{ms, dep}
+	if r.Chance(1, 3) {
+		sp.Mgmt, sp.StopVia, sp.Disable = true, "manage", []string{"ma"}
 	}
 	return sp
 }
